@@ -182,6 +182,7 @@ func init() {
 		Runs: []hrun{
 			{Pkg: waddrmgrPkg, Fn: "ZzC03Bip84L3", Tiers: "qt", Reach: []string{"c03-end", "extended", "privkey-checked", "restarted"}, Bound: "scope BIP0084, account 0, every history of 3 operations from {next-external(1..2), next-internal, extend-external, mark-used, lock, unlock, restart, derive-from-path}; after every step every issued address is looked up and checked"},
 			{Pkg: waddrmgrPkg, Fn: "ZzC03Bip84L3Locked", Tiers: "qt", Reach: []string{"c03-end", "privkey-checked"}, Bound: "same, starting locked (keys derived on unlock)"},
+			{Pkg: waddrmgrPkg, Fn: "ZzC03LegacySeedL2", Tiers: "qt", Reach: []string{"c03-end", "legacy-rule-differs-from-bip32", "privkey-checked"}, Bound: "a second concrete seed whose m/84'/0' private key has a leading zero byte (btcsuite's legacy hardened rule differs from BIP32 below it), 2 operations, account 0"},
 			{Pkg: waddrmgrPkg, Fn: "ZzC03Bip44L3", Tiers: "t", Reach: []string{"c03-end"}, Bound: "scope BIP0044, 3 operations"},
 			{Pkg: waddrmgrPkg, Fn: "ZzC03Bip49L3", Tiers: "t", Reach: []string{"c03-end"}, Bound: "scope BIP0049Plus, 3 operations"},
 			{Pkg: waddrmgrPkg, Fn: "ZzC03Bip86L3", Tiers: "t", Reach: []string{"c03-end"}, Bound: "scope BIP0086, 3 operations"},
